@@ -475,7 +475,9 @@ impl Storage for MemStorage {
             return Err(Error::Store(StorageError::LogTemporarilyUnavailable));
         }
 
-        let offset = core.entries[0].index;
+        // `first_index()` rather than `entries[0].index`: the (empty) range
+        // `[last_index + 1, last_index + 1)` is valid on a storage that holds no entries.
+        let offset = core.first_index();
         let lo = (low - offset) as usize;
         let hi = (high - offset) as usize;
         let mut ents = core.entries[lo..hi].to_vec();
